@@ -1,7 +1,7 @@
 (* Part 3 of the report-exactness proof: groups, fields (with nesting), the sentinel table, and the
    theorem about whole generated files. *)
 From GV Require Import Base.Bytes Base.Utf8 Base.StrOps Base.GoFloat GoLite.Syntax GoLite.Sem.
-From GV Require Import Gen.Decl Gen.Rules Gen.Template Gen.Spec Gen.Guard Gen.GenProofs1 Gen.GenProofs2.
+From GV Require Import Gen.Decl Gen.Rules Gen.Template Gen.Spec Gen.Guard Gen.GenProofs1 Gen.Typed Gen.GenProofs2.
 
 (* ---------- well-typed receiver values and the guard, field by field ---------- *)
 Fixpoint wt_field (cur : list (ident * value)) (fd : field) : Prop :=
@@ -32,7 +32,9 @@ Section Fields.
   Variable ipc : bytes -> ipclass.
   Variable tab : numtab.
   Variable tbl : list (ident * (bytes * bytes)).
+  Variable SA : Prop.
   Notation runs := (run_items ipc background tbl).
+  Notation good := (good SA).
 
   Definition looked_up (vs : list validator) : Prop :=
     forall vd, In vd vs -> v_cond vd <> None -> lookup_sentinel tbl (v_errvar vd) = Some (v_path vd, v_rulename vd).
@@ -97,14 +99,15 @@ Section Fields.
     get_path root parent = Some (VStruct cur) ->
     wt_field cur (FPlain names doc t) ->
     looked_up (all_validators (analyze_field tab tms S parent (FPlain names doc t))) ->
+    (field_params_ok tab tms (FPlain names doc t) = false -> SA) ->
     forall s, s_local s = None ->
     good (runs root (flat_map group_items (analyze_field tab tms S parent (FPlain names doc t))) [] s) s
          (want_field ipc tab tms S parent cur (FPlain names doc t)).
   Proof.
     intros Hp. cbn [analyze_field want_field wt_field]. unfold rules_of.
-    induction names as [|n names IH]; intros Hw Hl s Hs.
-    - apply good_nil. exact Hs.
-    - inversion Hw as [|? ? (v & Hv & Ht) Hw']; subst. cbn [flat_map]. rewrite Hv.
+    induction names as [|n names IH]; intros Hw Hl Hpar s Hs.
+    - apply (good_nil SA). exact Hs.
+    - inversion Hw as [|? ? (v & Hv & Ht) Hw']; subst. cbn [flat_map]. rewrite Hv. cbn [field_params_ok] in Hpar.
       set (ms := tms ++ sorted_markers doc) in *.
       assert (Hl1 : looked_up (make_validators tab ms n t S parent) /\
                     looked_up (all_validators (flat_map (fun n0 => match make_validators tab ms n0 t S parent with
@@ -116,12 +119,12 @@ Section Fields.
           destruct (make_validators tab ms n t S parent); [contradiction|]. cbn. rewrite app_nil_r. exact Hin.
         - rewrite flat_map_app. apply in_or_app. right. exact Hin. }
       destruct Hl1 as [La Lb].
-      pose proof (fun s0 H0 => checks_run ipc tab tbl root parent cur ms n t v S parent Hp Hv Ht La s0 H0) as Hc.
+      pose proof (fun s0 H0 => checks_run ipc tab tbl SA root parent cur ms n t v S parent Hp Hv Ht La Hpar s0 H0) as Hc.
       rewrite flat_map_app.
       apply runs_app.
       + apply groups_no_shadow.
       + destruct (make_validators tab ms n t S parent) as [|v0 vs] eqn:MV.
-        * cbn. specialize (Hc s Hs). cbn in Hc. rewrite (good_nil_inv s _ Hc). apply good_nil. exact Hs.
+        * cbn. specialize (Hc s Hs). cbn in Hc. rewrite (good_nil_inv s _ Hc). apply (good_nil SA). exact Hs.
         * cbn [flat_map]. rewrite app_nil_r. apply (group_run root parent cur); auto.
       + intros s' Hs'. apply IH; auto.
   Qed.
@@ -144,16 +147,17 @@ Section Fields.
     get_path root parent = Some (VStruct cur) ->
     field_ok tms fd -> wt_field cur fd ->
     looked_up (all_validators (analyze_field tab tms S parent fd)) ->
+    (field_params_ok tab tms fd = false -> SA) ->
     forall s, s_local s = None ->
     good (runs root (flat_map group_items (analyze_field tab tms S parent fd)) [] s) s
          (want_field ipc tab tms S parent cur fd).
   Proof.
-    destruct fd as [names doc t|names doc fs]; intros Hp Hok Hw Hl s Hs.
+    destruct fd as [names doc t|names doc fs]; intros Hp Hok Hw Hl Hpar s Hs.
     - apply plain_run; auto.
     - cbn [field_ok] in Hok. destruct Hok as (-> & Hdoc & Hfs).
       cbn [analyze_field want_field wt_field] in *. rewrite (sorted_nil doc Hdoc) in *. cbn [app] in *.
       revert s Hs. induction names as [|n names IHn]; intros s Hs.
-      + apply good_nil. exact Hs.
+      + apply (good_nil SA). exact Hs.
       + inversion Hw as [|? ? (sub & Hsub & Hwsub) Hw']; subst. cbn [flat_map] in *. rewrite Hsub.
         (* no marker reaches the propagation loop *)
         rewrite (no_markers_no_validators (direct_fields fs) S parent) in *. cbn [app] in *.
@@ -164,9 +168,12 @@ Section Fields.
         apply runs_app.
         * apply groups_no_shadow.
         * (* the nested struct's own fields *)
-          clear IHn Lb Hw' Hw Hl. revert s Hs La. induction fs as [|g fs' IHf]; intros s Hs La.
-          -- apply good_nil. exact Hs.
+          clear IHn Lb Hw' Hw Hl. cbn [field_params_ok] in Hpar. revert s Hs La Hpar. induction fs as [|g fs' IHf]; intros s Hs La Hpar.
+          -- apply (good_nil SA). exact Hs.
           -- destruct Hfs as [Hg Hfs']. destruct Hwsub as [Wg Wfs'].
+             assert (Hpg : field_params_ok tab [] g = false -> SA) by (intro X; apply Hpar; rewrite X; reflexivity).
+             assert (Hpr : (fix go (l : list field) : bool := match l with [] => true | g0 :: r => field_params_ok tab [] g0 && go r end) fs' = false -> SA)
+               by (intro X; apply Hpar; rewrite X; apply andb_false_r).
              rewrite all_validators_app in La. destruct (looked_up_app _ _ La) as [L1 L2].
              rewrite flat_map_app. apply runs_app.
              ++ apply groups_no_shadow.
@@ -178,13 +185,16 @@ Section Fields.
   Lemma fields_run root tms S cur fs :
     root = VStruct cur -> fields_ok tms fs -> wt_fields cur fs ->
     looked_up (all_validators (flat_map (analyze_field tab tms S []) fs)) ->
+    (forallb (field_params_ok tab tms) fs = false -> SA) ->
     forall s, s_local s = None ->
     good (runs root (flat_map group_items (flat_map (analyze_field tab tms S []) fs)) [] s) s
          (flat_map (want_field ipc tab tms S [] cur) fs).
   Proof.
-    intros ->. induction fs as [|g fs IH]; intros Hok Hw Hl s Hs.
-    - apply good_nil. exact Hs.
+    intros ->. induction fs as [|g fs IH]; intros Hok Hw Hl Hpar s Hs.
+    - apply (good_nil SA). exact Hs.
     - destruct Hok as [Hg Hok]. destruct Hw as [Wg Hw]. cbn [flat_map] in *.
+      assert (Hpg : field_params_ok tab tms g = false -> SA) by (intro X; apply Hpar; cbn [forallb]; rewrite X; reflexivity).
+      assert (Hpr : forallb (field_params_ok tab tms) fs = false -> SA) by (intro X; apply Hpar; cbn [forallb]; rewrite X; apply andb_false_r).
       rewrite all_validators_app in Hl. destruct (looked_up_app _ _ Hl) as [L1 L2].
       rewrite flat_map_app. apply runs_app.
       + apply groups_no_shadow.
